@@ -95,7 +95,10 @@ class MathParser:
         else:
             if self.parser.parms.math_displayed_simple:
                 txt = self.parser.get_text_direct(out).strip()
-                out = [defs.ActionToken(start_simple),
+                # NB: do not drop an error mark
+                marks = [t for t in out
+                            if utils.is_error_mark(t, self.parser.parms)]
+                out = marks + [defs.ActionToken(start_simple),
                         defs.SpaceToken(start_simple, '  ', pos_fix=True),
                         defs.TextToken(start_simple, self.parser.parms.
                                         lang_context.math_repl_display[0],
@@ -175,6 +178,10 @@ class MathParser:
                 continue
             elif type(tok) in (defs.MathElemToken, defs.MathOperToken,
                                             defs.MathSpaceToken):
+                out.append(tok)
+            elif utils.is_error_mark(tok, parms):
+                # error mark, e.g. from an unclosed macro argument:
+                # keep it as text, it is not part of the maths material
                 out.append(tok)
             elif tok.txt in parms.math_ignore:
                 pass
